@@ -11,6 +11,7 @@ import json
 import math
 
 from vlib import core, evqe, rnglog
+from vlib import translate
 from vlib.core import g_bool, g_list, g_opt, g_z
 
 IMPORTS = "From QV Require Import Evqe.RandLayer Evqe.C16Check."
@@ -225,6 +226,7 @@ def fixed_cases():
 
 
 def run(ctx):
+    translate.check_link(ctx, "C16")
     ctx.rule = ("random valid individuals (1-6 qubits, 1-6 layers, 30% parameterless layers, a quarter from the implementation's own random_individual) x one operation: "
                 "remove_layers k in [-1, L+1]; change_parameter_values with the right count or off by 1/3; change_layer_parameter_values with layer ids in [-2L, 2L) and right/wrong counts (+ the getter); "
                 "add_random_layers with n_layers in {-1,0,1..4}, zero or random initialisation, followed by remove_layers of the same count; distinct = distinct (individual, operation, arguments); all cases non-trivial")
